@@ -204,6 +204,12 @@ def run_network(ctx, ds, shape, s, ftype, upa_kind, upa_arr, upa_int, methods=ME
     flw = pyflwdir.from_array(raster, ftype=ftype)
     if canon_idx(flw.idxs_ds, n) != ds:  # decoding is C01's subject; here it is only a precondition
         raise RuntimeError("harness: from_array did not decode the raster the harness encoded")
+    idt = rng.choice(["int32", "int32", "int32", "int64", "uint32", "uint64"])
+    if idt != "int32":
+        # the library selects unsigned / 64-bit indices for very large rasters; the same network must upscale alike
+        from common import ds_to_np
+        flw = pyflwdir.FlwdirRaster(ds_to_np(ds, np.dtype(idt).type), shape, ftype, transform=flw.transform, latlon=flw.latlon)
+        ctx.count("index-dtype:" + idt)
     subncol = shape[1]
     if upa_arr is None:
         upa_full = flw.upstream_area()
